@@ -9,7 +9,7 @@ EconSpec (JSON-serialisable):
   horizon:  K
 CountrySpec:
   code, role: full|central|member, ctor: Country|Region
-  gov:  None | {kind: consolidated|treasury_cb|gold, code, cb_code, G: {...}, ic}
+  gov:  None | {kind: consolidated|treasury_cb|gold|gold_cb, code, cb_code, ic}   (gold_cb = Treasury + GoldStandardCentralBank)
   hh:   [ {code, kind: household|expectations, alpha_income, alpha_fin, weights, ic_F, lab_share} ]
   cap:  None | {code, alpha_income, alpha_fin}
   bus:  None | {code, kind: single|multi, margin, via_ctor}
@@ -84,14 +84,15 @@ def country(draw, code, role, K, gold_allowed, has_gov=True):
         kinds = ['consolidated', 'treasury_cb', 'consolidated']
         if gold_allowed:
             kinds.append('gold')
+            kinds.append('gold_cb')
         gk = draw(st.sampled_from(kinds))
-        gov = {'kind': gk, 'code': 'GOV' if gk != 'treasury_cb' else 'TRE', 'cb_code': 'CB',
+        gov = {'kind': gk, 'code': 'GOV' if gk not in ('treasury_cb', 'gold_cb') else 'TRE', 'cb_code': 'CB',
                'cb_via_ctor': draw(st.booleans()), 'ic': None}
-        if gk == 'gold':
+        if gk in ('gold', 'gold_cb'):
             gov['gold_stock'] = dec2(draw(st.integers(0, 50000)))
         c['gov'] = gov
         c['tax'] = {'code': 'TF', 'rate': dec4(draw(st.integers(0, 6000)))}
-        if gk == 'treasury_cb':
+        if gk in ('treasury_cb', 'gold_cb'):
             c['money'] = {'code': 'MON'}
             c['deposit'] = {'code': 'DEP', 'r': draw(path(K, 0, 800, places=4))}
         else:
@@ -142,7 +143,7 @@ def economy(draw, zones=(1, 3), horizon=(3, 5), want_cross=None, gold=True, fede
                 m['G'] = draw(path(K, 0, 20000))
                 zone['countries'].append(m)
         for c in zone['countries']:
-            if c['gov'] and c['gov']['kind'] == 'gold':
+            if c['gov'] and c['gov']['kind'] in ('gold', 'gold_cb'):
                 gold_left -= 1
         spec['zones'].append(zone)
     # initial stocks: household wealth = - government wealth, per zone
@@ -159,7 +160,7 @@ def economy(draw, zones=(1, 3), horizon=(3, 5), want_cross=None, gold=True, fede
                 zone['countries'][0]['gov']['ic'] = dec2(-tot)
     # links
     all_c = [(zi, ci) for zi, z in enumerate(spec['zones']) for ci, c in enumerate(z['countries']) if c['hh']]
-    need_ext = any(c['gov'] and c['gov']['kind'] == 'gold' for z in spec['zones'] for c in z['countries'])
+    need_ext = any(c['gov'] and c['gov']['kind'] in ('gold', 'gold_cb') for z in spec['zones'] for c in z['countries'])
     if links and len(all_c) >= 2:
         nl = draw(st.sampled_from([1, 2, 0, 3, 4]))
         for _ in range(nl):
@@ -317,7 +318,19 @@ def _construct(spec, out, mod, zsel, nm, dsc, make_external, order_seed, hooks):
                 else:
                     decls.append(((zi, ci, 'gov'), [], (lambda cobj=cobj, gcode=gcode: Treasury(cobj, gcode, dsc('tre')))))
                     cbcode = nm(zi, ci, g['cb_code'])
-                    if g['cb_via_ctor']:
+                    if g['kind'] == 'gold_cb':
+                        from sfc_models.sector_definitions import GoldStandardCentralBank
+                        stock = float(g['gold_stock'])
+                        if g['cb_via_ctor']:
+                            decls.append(((zi, ci, 'cb'), [(zi, ci, 'gov')],
+                                          (lambda cobj=cobj, cbcode=cbcode, zi=zi, ci=ci, stock=stock:
+                                           GoldStandardCentralBank(cobj, cbcode, dsc('cb'), treasury=S[(zi, ci, 'gov')],
+                                                                   initial_gold_stock=stock))))
+                        else:
+                            decls.append(((zi, ci, 'cb'), [], (lambda cobj=cobj, cbcode=cbcode, stock=stock:
+                                                              GoldStandardCentralBank(cobj, cbcode, dsc('cb'),
+                                                                                      initial_gold_stock=stock))))
+                    elif g['cb_via_ctor']:
                         decls.append(((zi, ci, 'cb'), [(zi, ci, 'gov')],
                                       (lambda cobj=cobj, cbcode=cbcode, zi=zi, ci=ci:
                                        CentralBank(cobj, cbcode, dsc('cb'), treasury=S[(zi, ci, 'gov')]))))
@@ -369,7 +382,7 @@ def _construct(spec, out, mod, zsel, nm, dsc, make_external, order_seed, hooks):
                 decls.append(((zi, ci, 'labour'), [], (lambda cobj=cobj, labour=labour: Market(cobj, labour, dsc('labour')))))
                 decls.append(((zi, ci, 'goods'), [], (lambda cobj=cobj, goods=goods: Market(cobj, goods, dsc('goods')))))
             if c['money'] is not None:
-                issuer = g['cb_code'] if g['kind'] == 'treasury_cb' else g['code']
+                issuer = g['cb_code'] if g['kind'] in ('treasury_cb', 'gold_cb') else g['code']
                 decls.append(((zi, ci, 'money'), [],
                               (lambda cobj=cobj, c=c, issuer=issuer, zi=zi, ci=ci:
                                MoneyMarket(cobj, nm(zi, ci, c['money']['code']), dsc('money'),
@@ -404,7 +417,7 @@ def _construct(spec, out, mod, zsel, nm, dsc, make_external, order_seed, hooks):
         c0 = zone['countries'][0]
         for ci, c in enumerate(zone['countries']):
             g = c['gov']
-            if g is not None and g['kind'] == 'treasury_cb' and not g['cb_via_ctor']:
+            if g is not None and g['kind'] in ('treasury_cb', 'gold_cb') and not g['cb_via_ctor']:
                 S[(zi, ci, 'cb')].Treasury = S[(zi, ci, 'gov')]
             if c['bus'] is not None and c['bus']['kind'] == 'multi' and not c['bus']['via_ctor']:
                 S[(zi, ci, 'bus')].AddMarket(S[(zi, ci, 'goods')])
